@@ -1,4 +1,5 @@
 import WebpVerif.Spec.Lossless
+import WebpVerif.Spec.LosslessP
 import WebpVerif.Model.Util
 import WebpVerif.Model.ColorIndex
 namespace DrvLossless
@@ -6,6 +7,14 @@ open Util
 
 def handle (args : List String) : Option String :=
   match args with
+  | ["vp8lspecp", stream] => do
+      -- the proof-friendly twin of the specification (the one the theorems are about)
+      let bytes ← parseHex stream
+      match VP8LP.decodeFast bytes.toList with
+      | none => some "invalid"
+      | some (w, h, img) =>
+        let rgba := VP8L.toRgba img.toArray
+        some (s!"ok {w} {h} " ++ toString (rgba.foldl fnvByte fnvInit).toNat ++ "/" ++ toString rgba.size)
   | [cmd, stream] =>
     if cmd != "vp8lspec" && cmd != "vp8lspecfull" then none else do
       let bytes ← parseHex stream
